@@ -41,6 +41,10 @@ func (i BasicPrivateIssuer) Evaluate(req *BasicPrivateTokenRequest) ([]byte, err
 	if err != nil {
 		return nil, err
 	}
+	if e.IsIdentity() {
+		// RFC 9497, Section 2.1: the identity element is not a valid blinded element
+		return nil, fmt.Errorf("invalid blinded element")
+	}
 	evalRequest := &oprf.EvaluationRequest{
 		Elements: []oprf.Blinded{e},
 	}
